@@ -181,8 +181,41 @@ impl FixtureDatabase {
             }
             Expr::Subscript(subscript) => {
                 let base = self.expr_to_string(&subscript.value, content);
-                let slice = self.expr_to_string(&subscript.slice, content);
+                let is = |name: &str| base == name || base.ends_with(&format!(".{}", name));
+                let slice = if is("Literal") {
+                    // The arguments are values, not types: keep them as written
+                    Self::source_text(&subscript.slice, content)
+                } else if is("Annotated") {
+                    // `Annotated[T, metadata...]`: only the first argument is a type
+                    match &*subscript.slice {
+                        Expr::Tuple(tuple) => tuple
+                            .elts
+                            .iter()
+                            .enumerate()
+                            .map(|(i, e)| {
+                                if i == 0 {
+                                    self.expr_to_string(e, content)
+                                } else {
+                                    Self::source_text(e, content)
+                                }
+                            })
+                            .collect::<Vec<_>>()
+                            .join(", "),
+                        other => self.expr_to_string(other, content),
+                    }
+                } else {
+                    self.expr_to_string(&subscript.slice, content)
+                };
                 format!("{}[{}]", base, slice)
+            }
+            // `Callable[[int, str], bool]`
+            Expr::List(list) => {
+                let elements: Vec<String> = list
+                    .elts
+                    .iter()
+                    .map(|e| self.expr_to_string(e, content))
+                    .collect();
+                format!("[{}]", elements.join(", "))
             }
             Expr::Tuple(tuple) => {
                 let elements: Vec<String> = tuple
@@ -196,7 +229,8 @@ impl FixtureDatabase {
                 // String forward reference (`-> "Foo"`): show the referenced type
                 rustpython_parser::ast::Constant::Str(s) => s.to_string(),
                 rustpython_parser::ast::Constant::None => "None".to_string(),
-                other => format!("{:?}", other),
+                // `...`, numbers, booleans: as written
+                _ => Self::source_text(expr, content),
             },
             Expr::BinOp(binop) if matches!(binop.op, rustpython_parser::ast::Operator::BitOr) => {
                 format!(
@@ -205,7 +239,18 @@ impl FixtureDatabase {
                     self.expr_to_string(&binop.right, content)
                 )
             }
-            _ => "Any".to_string(),
+            // Anything else: as written
+            _ => Self::source_text(expr, content),
         }
+    }
+
+    /// The text of an expression as written in the source (`Any` if it cannot be cut out).
+    fn source_text(expr: &rustpython_parser::ast::Expr, content: &str) -> String {
+        use rustpython_parser::ast::Ranged;
+        let range = expr.range();
+        content
+            .get(range.start().to_usize()..range.end().to_usize())
+            .map(|text| text.to_string())
+            .unwrap_or_else(|| "Any".to_string())
     }
 }
